@@ -774,3 +774,96 @@ impl<T: ConstrainedFuzzyHashType> GeneratorType for Generator<T> {
 }
 
 pub(crate) mod tests;
+
+/// Verification hooks (only with `--cfg fast_tlsh_verif`): explicit state
+/// injection / extraction.  See [`crate::verif`].
+#[cfg(fast_tlsh_verif)]
+mod verif_hooks {
+    use super::*;
+    use crate::verif::GeneratorState;
+
+    impl<
+            const SIZE_CKSUM: usize,
+            const SIZE_BODY: usize,
+            const SIZE_BUCKETS: usize,
+            const SIZE_IN_BYTES: usize,
+            const SIZE_IN_STR_BYTES: usize,
+        >
+        inner::Generator<SIZE_CKSUM, SIZE_BODY, SIZE_BUCKETS, SIZE_IN_BYTES, SIZE_IN_STR_BYTES>
+    where
+        FuzzyHashBodyData<SIZE_BODY>: FuzzyHashBody,
+        FuzzyHashBucketsInfo<SIZE_BUCKETS>: FuzzyHashBucketMapper<
+            RawBodyType = [u8; SIZE_BODY],
+            RawBucketType = [u32; SIZE_BUCKETS],
+        >,
+        FuzzyHashChecksumData<SIZE_CKSUM, SIZE_BUCKETS>: FuzzyHashChecksum,
+        VerboseFuzzyHashParams<
+            SIZE_CKSUM,
+            SIZE_BODY,
+            SIZE_BUCKETS,
+            SIZE_IN_BYTES,
+            SIZE_IN_STR_BYTES,
+        >: ConstrainedVerboseFuzzyHashParams,
+        LengthProcessingInfo<SIZE_BUCKETS>: ConstrainedLengthProcessingInfo,
+    {
+        /// Construct the generator from the explicit state.
+        pub(crate) fn verif_from_state(state: &GeneratorState) -> Self {
+            let mut buckets = FuzzyHashBucketsData::<SIZE_BUCKETS>::new();
+            let n = buckets.buckets.len();
+            buckets.buckets.copy_from_slice(&state.buckets[..n]);
+            let mut checksum = [0u8; SIZE_CKSUM];
+            checksum.copy_from_slice(&state.checksum[..SIZE_CKSUM]);
+            Self {
+                buckets,
+                len: state.len,
+                checksum: FuzzyHashChecksumData::from_raw(&checksum),
+                tail: state.tail,
+                tail_len: state.tail_len,
+            }
+        }
+
+        /// Extract the explicit state from the generator.
+        pub(crate) fn verif_state(&self) -> GeneratorState {
+            let mut buckets = [0u32; 256];
+            let n = self.buckets.buckets.len();
+            buckets[..n].copy_from_slice(&self.buckets.buckets);
+            let mut checksum = [0u8; 3];
+            checksum[..SIZE_CKSUM].copy_from_slice(self.checksum.data());
+            GeneratorState {
+                buckets,
+                len: self.len,
+                checksum,
+                tail: self.tail,
+                tail_len: self.tail_len,
+            }
+        }
+    }
+
+    /// Implement the hooks for concrete [`Generator`] types.
+    macro_rules! outer_hooks {
+        {$($ty:ty;)*} => {
+            $(
+                impl Generator<$ty> {
+                    /// (verification hook) Construct the generator from the explicit state.
+                    pub fn verif_from_state(state: &GeneratorState) -> Self {
+                        Self {
+                            inner: <inner_type!($ty)>::verif_from_state(state),
+                        }
+                    }
+
+                    /// (verification hook) Extract the explicit state from the generator.
+                    pub fn verif_state(&self) -> GeneratorState {
+                        self.inner.verif_state()
+                    }
+                }
+            )*
+        }
+    }
+    outer_hooks! {
+        crate::hashes::Short;
+        crate::hashes::Normal;
+        crate::hashes::NormalWithLongChecksum;
+        crate::hashes::Long;
+        crate::hashes::LongWithLongChecksum;
+    }
+}
